@@ -466,3 +466,33 @@ def with_positions(mol, pos):
         c = mol.copy()
     c.atoms_positions = np.array(pos, float)
     return c
+
+
+_disturb_turn = [0]
+
+
+def disturb(ctx, emap, tgtm, refm=None):
+    """Something goes wrong between two good calls and is handled by the caller: a call that the map must refuse (a
+    number, the target molecule), or a scale factor no map can have assigned to it (refused -> the caller goes on; taken
+    silently as a plain attribute -> the caller puts the old value back).  The next good call is judged as always."""
+    _disturb_turn[0] += 1
+    how = _disturb_turn[0] % (4 if refm is not None and len(refm) >= 3 else 3)
+    try:
+        if how == 3:
+            # the reference's own name, size, residues and first atoms - the last atom is called something else and the
+            # bonds are another molecule's (every atom bonded to the first)
+            names = [a.name for a in refm]
+            names[-1] = 'ZZ'
+            emap(gen.make_molecule(refm.name, names, gen.star(len(refm)), np.array(refm.atoms_positions),
+                                   resnames=[a.resname for a in refm], resids=[a.gro_resid for a in refm]))
+        elif how == 0:
+            emap(2)
+        elif how == 1:
+            emap(tgtm)
+        else:
+            keep = emap.scale_factor
+            emap.scale_factor = [0, -0.5, float('nan')][(_disturb_turn[0] // 4) % 3]
+            emap.scale_factor = keep
+    except Exception:  # noqa
+        pass
+    ctx.hit('recovery:refused-call-or-assignment-then-map-used-again')
